@@ -319,6 +319,14 @@ def run_shard(shard):
                 rt = am(np.where(np.isfinite(z2 - bsamp), z2 - bsamp, np.inf)) <= 1e-6 * (1 + am(bsamp))
                 rec.count("joint_logprob_gated_roundtrip_ill_conditioned", int((finite_s & ~rt).sum()))
                 ok = finite_s & rt & np.isfinite(lp2) & np.isfinite(lps) & (jt < 1e-3 * (1 + np.abs(lp2)))
+                # a joint log-probability that is NaN / +-inf although log_prob of the very same (finite, well-conditioned) sample is
+                # finite cannot be the log-density of that sample
+                nf = finite_s & rt & np.isfinite(lps) & ~np.isfinite(lp2) & (np.abs(lps) < 1e8)
+                rec.count("joint_logprob_finiteness_compared", int((finite_s & rt & np.isfinite(lps)).sum()))
+                if nf.any():
+                    i = int(np.where(nf)[0][0])
+                    viol("joint.log_prob_nonfinite", f"sample_and_log_prob returned log-prob {lp2[i]!r} but log_prob(sample)={lps[i]!r} is finite "
+                                                     f"({int(nf.sum())} of {NK} keys)", {"key_index": i, "sample": s2[i], "joint_log_prob": lp2[i], "log_prob_of_sample": lps[i]})
                 err = np.abs(lp2 - lps)
                 bad = ok & (err > jt)
                 rec.count("joint_logprob_clause_compared", int(ok.sum()))
